@@ -1,4 +1,13 @@
 """Datatype functions referenced by generated schemas (by dotted name)."""
+import logging
+
+
+class PlainFormatter(logging.Formatter):
+    """a formatter class whose constructor has no `style` parameter (C20: ZConfig then installs
+    its own style object's usesTime / formatMessage on the instance)"""
+
+    def __init__(self, fmt=None, datefmt=None):
+        logging.Formatter.__init__(self, fmt, datefmt, validate=False)
 
 
 class Wrapped:
